@@ -1338,12 +1338,72 @@ def directed_search():
         return 1, [{"key": "directed-replay-exception", "what": f"{type(ex).__name__}: {ex}", "case": {}}]
 
 
+def constructor_search(ctx):
+    """constructor argument combinations against the setter route: a model constructed with (var | var_raw) together with
+    (len_scale | integral_scale), optional arguments, rescale, anis has exactly the requested values, and equals the model reached
+    by constructing with defaults and assigning the same values through the setters (var last)"""
+    import gstools as gs
+    rng = np.random.RandomState(ctx.seed + 1441)
+    viol, ev = [], 0
+    names = ["Gaussian", "Exponential", "Stable", "Matern", "Rational", "Spherical", "Cubic", "TPLGaussian", "TPLExponential", "TPLStable", "TPLSimple"]
+    optn = {"Stable": {"alpha": 1.3}, "Matern": {"nu": 1.7}, "Rational": {"alpha": 2.2}, "TPLGaussian": {"hurst": 0.35},
+            "TPLExponential": {"hurst": 0.7}, "TPLStable": {"hurst": 0.4, "alpha": 1.4}, "TPLSimple": {"nu": 3.0}}
+    with warnings.catch_warnings():
+        warnings.simplefilter("ignore")
+        for cname in names:
+            cls = getattr(gs, cname)
+            for latlon, temporal in ((False, False), (False, True), (True, False)):
+                for trial in range(ctx.scale(2, 8)):
+                    dim = 3 if latlon else int(rng.randint(1, 4))
+                    if cname == "TPLSimple":
+                        dim = min(dim, 2) if not latlon else dim
+                    v = float(rng.choice([0.5, 2.5, round(float(np.exp(rng.uniform(-1, 1.5))), 3)]))
+                    I = float(rng.choice([1.5, 8.0, round(float(np.exp(rng.uniform(-1, 2))), 3)]))
+                    kw = dict(optn.get(cname, {}))
+                    if rng.rand() < 0.4:
+                        kw["rescale"] = float(rng.choice([0.5, 2.0]))
+                    geo = dict(latlon=latlon, temporal=temporal) if (latlon or temporal) else {}
+                    if cname == "TPLSimple" and latlon:
+                        continue
+                    use_raw = rng.rand() < 0.3
+                    vkw = {"var_raw": v} if use_raw else {"var": v}
+                    case = dict(cls=cname, dim=dim, integral_scale=I, **vkw, **kw, **geo)
+                    try:
+                        m = cls(dim=dim, integral_scale=I, **vkw, **kw, **geo)
+                    except ValueError:
+                        continue
+                    ev += 1
+                    got_v = float(m.var_raw if use_raw else m.var)
+                    if not np.isclose(got_v, v, rtol=1e-9, atol=0):
+                        viol.append({"key": "constructor:var-with-integral_scale", "case": case,
+                                     "what": f"{cname}(…, {'var_raw' if use_raw else 'var'}={v}, integral_scale={I}) reports {'var_raw' if use_raw else 'var'} = {got_v}"})
+                    if not np.isclose(float(m.integral_scale), I, rtol=1e-6):
+                        viol.append({"key": "constructor:integral_scale-not-met", "case": case,
+                                     "what": f"{cname}(…, integral_scale={I}) reports integral_scale = {float(m.integral_scale)}"})
+                    try:
+                        m2 = cls(dim=dim, **kw, **geo)
+                        m2.integral_scale = I
+                        if use_raw:
+                            m2.var_raw = v
+                        else:
+                            m2.var = v
+                        a, b = observe(m), observe(m2)
+                        if not obs_close(a, b, 1e-9):
+                            viol.append({"key": "constructor:differs-from-setter-route", "case": case,
+                                         "what": f"{cname} constructed with var and integral_scale differs from the model reached by the setters (integral_scale, then var)"})
+                    except ValueError:
+                        pass
+    return ev, viol
+
+
 def search(ctx, deep=False):
     f = 3 if deep else 1
     ev0, v0 = directed_search()
     ev1, v1 = boundary_search(ctx)
     ev2, v2 = history_search(ctx, ctx.scale(500, 8000) * f, 10 if ctx.quick else 16)
-    viol = v0 + v1 + v2
+    ev3, v3 = constructor_search(ctx)
+    ev2 += ev3
+    viol = v0 + v1 + v3 + v2
     # one violation per key is enough for the verdict; keep it small and stable
     out, seen = [], set()
     for v in viol:
@@ -1354,7 +1414,8 @@ def search(ctx, deep=False):
             "summary": f"{ev0} directed replays (D13, D8, D7), {ev1} boundary assignments (every class x config x dim x bounded argument, "
                        f"on / one ulp outside each finite bound), {ev2} calls in random setter histories with arbitrary doubles checked "
                        "against an independent oracle: out-of-bounds rejected, rejected => unchanged, accepted => inside bounds, "
-                       "derived quantities, frame conditions, equality with a freshly constructed model; "
+                       "derived quantities, frame conditions, equality with a freshly constructed model (state and behaviour); "
+                       f"{ev3} constructor calls combining var / var_raw with integral_scale, optional arguments and rescale against the setter route; "
                        f"violation keys: {sorted(seen)}"}
 
 
